@@ -557,6 +557,9 @@ func init() {
 		mn := max(1, 3*n)
 		lw := e.lwv(mn)
 		work := e.work(lw)
+		// documented: selected is standardized on return; the code does that
+		// (to compute the returned m) before the workspace-query return
+		e.queryMayWrite = how == lapack.EVSelected
 		e.run(func() {
 			impl.Dtrevc3(fside, fhow, fx(e, "Selected", selected, n > 0 && how == lapack.EVSelected), e.fdim("n", n), fs(e, "shortT", t, n > 0), e.fld("ldt", ldt, max(1, n)), fs(e, "shortVL", vl, late && leftv), e.fld("ldvl", ldvl, ldvlMin), fs(e, "shortVR", vr, late && rightv), e.fld("ldvr", ldvr, ldvrMin), e.fint("mm", mm, m-1, true), e.fwork(work), e.flw(lw, mn))
 		})
